@@ -52,6 +52,19 @@ pub assume_specification [u128::trailing_zeros] (x: u128) -> (r: u32)
     ensures r == u128_tz(x);
 
 
+/// u128::leading_zeros in arithmetic form (T-std): 2^(127-lz) <= x < 2^(128-lz)
+pub uninterp spec fn u128_lz(x: u128) -> u32;
+#[verifier::external_body]
+pub proof fn axiom_u128_lz(x: u128)
+    ensures
+        x == 0 ==> u128_lz(x) == 128,
+        x != 0 ==> u128_lz(x) < 128
+            && vstd::arithmetic::power2::pow2((127 - u128_lz(x)) as nat) <= x as nat
+            && (x as nat) < vstd::arithmetic::power2::pow2((128 - u128_lz(x)) as nat),
+{}
+pub assume_specification [u128::leading_zeros] (x: u128) -> (r: u32)
+    ensures r == u128_lz(x);
+
 /// i64::trailing_zeros in arithmetic form, on the absolute value (two's complement negation keeps the trailing zeros)
 pub uninterp spec fn i64_tz(x: i64) -> u32;
 #[verifier::external_body]
